@@ -44,6 +44,12 @@ def run_case(cs):
             tree["huge/%02d" % j] = None
         tree["huge"] = None
         cs.count("huge_trees_over_4096_records")
+    if rng.random() < 0.04:
+        # a file longer than any read buffer and not a multiple of it
+        dirs2 = [""] + [x for x in tree if tree[x] is None]
+        par = rng.choice(dirs2)
+        tree[(par + "/" if par else "") + "clip-%d.mov" % rng.randint(0, 99)] = rng.randbytes(rng.choice([(1 << 20) + 1, (1 << 20) + 4097, 3 * (1 << 20) + 12345, (2 << 20) - 1]))
+        cs.count("trees_with_a_file_over_1MiB")
     big = rng.random() < 0.03
     if big:
         # a manifest of well over 32 KiB (long names, many records)
